@@ -336,6 +336,8 @@ func checkC20(c *core.Ctx) error {
 	checkAxisExtents(c)
 	checkRotationDivisors(c)
 	checkRequestedResults(c)
+	checkErrorBranches(c)
+	checkInterfaceComparisons(c)
 	checkOptionSwitches(c)
 	checkOptionSpreading(c)
 	checkADGuards(c)
